@@ -75,6 +75,10 @@ TABLE = {
    text='real SimpleClient over a real Client over the scripted engine.io, its two Events and input buffer replaced by scheduler-aware equivalents; producer (handler) threads, consumer, network (final loss / loss with successful reconnection) and emitter actors run under a controlled scheduler: every interleaving (DFS, capped per scenario, completeness reported) at the granularity of the client\'s event/buffer operations for 11 small scenarios, seeded random schedules (60% with statement-level yield points in simple_client.py via sys.monitoring) for random larger ones; AsyncSimpleClient: every release order of the parked tasks at delivery and wake-up points on a virtual-time loop; oracles: returned sequence = arrival sequence prefix, TimeoutError only with nothing unreturned (timeouts fire only at quiescence), DisconnectedError only after a final end with every event that arrived before it returned, emit() never fails except DisconnectedError after a final end',
    note='arrival order = order of the real appends; the instant of the final end is taken at the assignment connected=False',
    tech='runtime monitoring: controlled scheduler (bounded-exhaustive + randomized), unique tokens, order/exactly-once trace oracle'),
+ 'C02': dict(cat='exploration',
+   text='a real Client/AsyncClient connected to a real Server/AsyncServer through a bridge in which every frame is re-encoded by the real engine.io framing (polling payload with base64 attachments, or websocket packets with raw binary), rotating over all 8 configurations {threaded, asyncio} x {default, msgpack} x {polling, websocket}; generated messages in both directions via emit, emit+callback, call() and send() with random event names, JSON+bytes payloads (tuple / None / other at top level) and handler return values; handler arguments, callback arguments and call() results compared with the argument rule; bursts of up to 50 consecutive emits checked for order',
+   note='network replaced below engine.io; thread-per-message dispatch (threaded engine.io client; threaded server with async_handlers=True) defines no order and is not judged for it; 64-bit integers, finite floats, no lone surrogates',
+   tech='runtime monitoring: end-to-end differential oracle (argument rule) over real client and server objects with unique sequence numbers'),
 }
 # filled in as checks are built; see bottom of file for the not-built reason
 
